@@ -101,6 +101,17 @@ def note(r, *ops):
     return r
 
 
+def _same_val(v, v0):
+    if v is v0:
+        return True
+    if type(v) is int or type(v0) is int:
+        return type(v) is int and type(v0) is int and v == v0
+    try:
+        return isinstance(v, z3.ExprRef) and isinstance(v0, z3.ExprRef) and v.eq(v0)
+    except Exception:
+        return False
+
+
 def small_term(e, budget=SMALL):
     return tsz(e) <= budget
 
@@ -599,7 +610,7 @@ class Machine(object):
                 e = d['new'].get(k)
                 vals.append(e[2] if e is not None else o.b[i])
             v0 = vals[0]
-            same = all((v is v0) or (type(v) is int and type(v0) is int and v == v0) for v in vals)
+            same = all(_same_val(v, v0) for v in vals)
             if same:
                 nv = v0
             else:
@@ -615,11 +626,15 @@ class Machine(object):
                     if any(b is None for b in bvs):
                         bvs = [b if b is not None else z3.BitVecVal(0, 8) for b in bvs]
                     nv = bvs[-1]
+                    big = sum(tsz(b) for b in bvs)
                     for cnd, b in zip(reversed(cs[:-1]), reversed(bvs[:-1])):
-                        nv = z3.If(cnd, b, nv)
-                    nv = z3.simplify(nv)
-                    if z3.is_bv_value(nv):
-                        nv = nv.as_long()
+                        nv = b if b.eq(nv) else z3.If(cnd, b, nv)
+                    if big <= 4 * SMALL:
+                        nv = z3.simplify(nv)
+                        if z3.is_bv_value(nv):
+                            nv = nv.as_long()
+                    else:
+                        note(nv, *bvs)          # large terms (e.g. ARX rounds): merged lazily, not re-simplified
             self.journal.append((o, i, o.b[i]))
             o.b[i] = nv
             o.written = True
